@@ -6,7 +6,7 @@ import random
 from stv import envshim  # noqa: F401
 
 
-def small_space(rng, with_const=True, finite=False):
+def small_space(rng, with_const=True, finite=False, ensure_infinite=False):
     """A small mixed config space (JSON description -> built by build_space)."""
     kinds = ["uniform", "loguniform", "randint", "choice", "finrange", "lograndint", "ordinal"]
     if finite:
@@ -34,6 +34,8 @@ def small_space(rng, with_const=True, finite=False):
             desc[name] = ["ordinal", sorted(rng.sample(range(1, 40), m)), rng.choice(["equal", "nn"])]
         elif k == "finrange":
             desc[name] = ["finrange", 0.0, 1.0, rng.randint(2, 4)]
+    if ensure_infinite and space_size(desc) is not None:
+        desc["h0"] = ["uniform", 0.0, 1.0]
     if with_const and rng.random() < 0.6:
         desc["const_s"] = ["const", "abc"]
     if with_const and rng.random() < 0.4:
@@ -95,34 +97,41 @@ def space_size(desc):
 
 
 class Curves:
-    """Deterministic metric table indexed by (trial id, level): values in general position
-    (continuous), with heavy ties, or constant columns."""
+    """Deterministic metric table indexed by (trial id, level), one independently seeded row per
+    trial id: values in general position (continuous, crossing), with heavy ties, or constant."""
 
-    def __init__(self, kind, seed, max_t, n_rows=64, sign=1.0):
+    def __init__(self, kind, seed, max_t, sign=1.0):
         self.kind = kind
         self.max_t = max_t
         self.sign = sign
-        rng = random.Random(seed)
-        self.rows = []
-        for i in range(n_rows):
-            if kind == "continuous":
-                base = rng.uniform(0.1, 1.0)
-                slope = rng.uniform(0.0, 0.05)
-                row = [base * math.exp(-slope * l) + rng.uniform(-0.05, 0.05) for l in range(1, max_t + 1)]
-            elif kind == "ties":
-                row = [float(rng.randint(0, 3)) for _ in range(max_t)]
-            elif kind == "const":
-                c = float(rng.randint(0, 1))
-                row = [c for _ in range(max_t)]
-            elif kind == "crossing":
-                a, b = rng.uniform(0, 1), rng.uniform(-0.1, 0.1)
-                row = [a + b * l + 0.01 * rng.random() for l in range(1, max_t + 1)]
-            else:
-                raise ValueError(kind)
-            self.rows.append(row)
+        self.seed = seed
+        self.rows = {}
+
+    def row(self, trial_id):
+        r = self.rows.get(trial_id)
+        if r is not None:
+            return r
+        rng = random.Random(self.seed * 1000003 + trial_id)
+        kind, max_t = self.kind, self.max_t
+        if kind == "continuous":
+            base = rng.uniform(0.1, 1.0)
+            slope = rng.uniform(0.0, 0.05)
+            row = [base * math.exp(-slope * l) + rng.uniform(-0.05, 0.05) for l in range(1, max_t + 1)]
+        elif kind == "ties":
+            row = [float(rng.randint(0, 3)) for _ in range(max_t)]
+        elif kind == "const":
+            c = float(rng.randint(0, 1))
+            row = [c for _ in range(max_t)]
+        elif kind == "crossing":
+            a, b = rng.uniform(0, 1), rng.uniform(-0.1, 0.1)
+            row = [a + b * l + 0.01 * rng.random() for l in range(1, max_t + 1)]
+        else:
+            raise ValueError(kind)
+        self.rows[trial_id] = row
+        return row
 
     def __call__(self, trial_id, level, config=None):
-        return self.sign * self.rows[trial_id % len(self.rows)][level - 1]
+        return self.sign * self.row(trial_id)[level - 1]
 
 
 # ---------------------------------------------------------------------------------------------
